@@ -1195,6 +1195,28 @@ func genFuzz(o *Out, tier string, r *Rng) {
 			o.Do("trusted", ver, hx(ej))
 			o.Count("trusted.with-event_id")
 		}
+		// directed: a room ID of the OTHER family - a domain-less `!<43 characters>` ID in the room versions whose IDs carry a
+		// server name, a `!local:server` ID where IDs are hashes - on the create event (whose auth check asks the room ID for
+		// its domain) and on the mutated event (seeded change C18-r6m1)
+		if r.Chance(35) {
+			src := h.All[0]
+			if r.Chance(30) {
+				src = target
+			}
+			ms := evMap(src)
+			ms["room_id"] = Pick(r, []string{"!" + r.id43(), "!" + strings.Repeat("A", 43), "!room:hs1", "!" + r.id43() + ":hs1", "!" + strings.Repeat("b", 42), "!" + strings.Repeat("b", 44)})
+			if r.Chance(50) {
+				ms["prev_events"] = []interface{}{}
+				ms["auth_events"] = []interface{}{}
+			}
+			if r.Chance(70) {
+				withHash(ms)
+			}
+			rj, _ := json.Marshal(ms)
+			o.Do("event", ver, hx(rj))
+			o.Do("trusted", ver, hx(rj))
+			o.Count("event.room-id-of-the-other-family")
+		}
 		// raw byte mutations of the same text
 		o.Do("event", ver, hx(r.Malform(tj)))
 		o.Do("trusted", ver, hx(r.Malform(tj)))
